@@ -124,6 +124,9 @@ def run(ctx):
 
     collect(bdesc)
     hit_value = H.pick(targets) if (targets and hit_at is not None) else None
+    # a near miss on the worse side of the value that hits: 5e-4 away (the tolerance is 1e-4)
+    near_at = H.draw(80) if (hit_value is not None and H.draw(2)) else None
+    near_value = (hit_value + (5e-4 if minimize else -5e-4)) if near_at is not None else None
     clock = SimClock(ctx, read_costs=(0, 1000, 250_000, 3_000_000, 40_000_000), jump_den=(7 if H.draw(3) == 0 else 0))
     st = World()
     st.invocations = 0
@@ -154,6 +157,8 @@ def run(ctx):
             ctx.violate(f"C14/evaluation-after-budget-met/{algo}", f"fitness invoked (#{i + 1}) after the budget check had answered True at {st.done_at} invocations")
         if hit_value is not None and i == hit_at:
             v = hit_value
+        elif near_value is not None and i == near_at:
+            v = near_value  # better than everything else, but NOT within the tolerance of the target
         else:
             # never within 1 of any target; on the worse side of the value that hits (so that the hit becomes the best)
             off = float(2 * (i % 11) + 100)
@@ -231,11 +236,28 @@ def run(ctx):
                 ctx.violate("C14/answer/time/late", f"TimeBudget({self.t}) answered False although at least {lo}s of simulated time had elapsed")
             return ans
 
+    target_forms = [H.pick(["float", "float", "int", "np.int64", "np.float32"]) for _ in range(3)]
+    built_targets = []
+
     def build(b, top=False):
         if b[0] == "evals":
             return Probe(EvaluationBudget(b[1]), b, top)
         if b[0] == "target":
-            return Probe(TargetFitness(b[1]), b, top)
+            # the target may be written as an int or a numpy scalar (the budget converts it)
+            tv = b[1]
+            form = target_forms[len(built_targets) % len(target_forms)]
+            built_targets.append(form)
+            if form == "int" and float(tv).is_integer():
+                tv = int(tv)
+            elif form == "np.float32" and float(tv).is_integer() and abs(tv) < 2**20:
+                import numpy as np
+
+                tv = np.float32(tv)
+            elif form == "np.int64" and float(tv).is_integer():
+                import numpy as np
+
+                tv = np.int64(tv)
+            return Probe(TargetFitness(tv), b, top)
         if b[0] == "time":
             return Probe(TimeProbe(b[1]), b, top)
         a, c = build(b[1]), build(b[2])
